@@ -1,3 +1,3 @@
 """Importing this package registers every rule."""
 
-from . import algebra, determinism, formatter, jit  # noqa: F401
+from . import algebra, determinism, formatter, jit, naming  # noqa: F401
